@@ -30,7 +30,7 @@ type twinBlock struct {
 type twinFile struct {
 	AppState []byte                 `json:"app_state"`
 	AppOpts  map[string]interface{} `json:"app_opts,omitempty"`
-	Blocks   []twinBlock `json:"blocks"`
+	Blocks   []twinBlock            `json:"blocks"`
 }
 
 // RunTwin re-executes the run's block log in a child process. It returns a violation text ("" if
